@@ -13,7 +13,8 @@ Emitted, all from the current working tree of the repository, nothing evaluated:
     getattr-style access), aliases of os, imports of posix/nt, rebindings of the watched names (parameters, defs, aliases,
     global/nonlocal), and every use of one of the seven decorators outside the locked shortcuts (a decorator applied while a
     decorated callable runs would be an indirect read of the switch at call time).  Each reference is classified by phase
-    (inside env_var_logic.py / module level / decoration time of a guard site / inside a wrapper = call time / elsewhere);
+    (inside env_var_logic.py / module level / creation of the decorator object = body of the factory pedantic(...) or
+    for_all_methods(...) / decoration time of a guard site / inside a wrapper = call time / elsewhere);
     whether the list is harmless is decided in Coq (`good`, Props/C09.v), not here.
 Anything outside the whitelisted shapes raises Untranslatable (fail closed)."""
 import ast, os
@@ -321,7 +322,10 @@ def collect_refs(var, lit):
                     if rel == r_ and (sc == root or sc.startswith(root + '.')):
                         site = (root, s_)
                         break
-                if site:
+                if site and site[0] in ('pedantic', 'for_all_methods'):
+                    # body of the factory: runs when the decorator object is created (maybe long before it is applied)
+                    phase = f'PhCreate {site[1]}' if sc == site[0] else f'PhCall {site[1]}'
+                elif site:
                     # directly in the body of the decorator function = decoration time; in anything nested = a wrapper = call time
                     phase = f'PhDecoration {site[1]}' if sc == site[0] else f'PhCall {site[1]}'
                 elif sc == '':
